@@ -603,7 +603,7 @@ Definition layout_sample : list lay :=
       LDef ["    # a property"] [(DPath "property", ["    @property"])] ["    def p(self):"] "p" false
         [LLeaf [] ["        return 1"] SOther];
       LDef [""] [] ["    def __init__(self):"] "__init__" false
-        [LIf [] ["        if a:"] false [LLeaf [] ["            self.y = 1"] (SAssign 0 0 [TSelf "y"] [])]
+        [LIf [] ["        if a:"] TCNone [LLeaf [] ["            self.y = 1"] (SAssign 0 0 [TSelf "y"] [])]
              ["            # no"] ["        else:"] [LLeaf [] ["            self.y = 2"] (SAssign 0 0 [TSelf "y"] [])]]];
    LDef [""] [(DPath "functools.cache", ["@functools.cache"])] ["def f():"] "f" false [LLeaf [] ["    pass"] SOther]].
 Example layout_sample_ok :
